@@ -14,7 +14,7 @@ DEV = {
  'C07': '11 contexts; `#if` is covered by C10 with the same integer model in preprocessor mode; floating constant expressions added after T2/T3',
  'C08': 'as designed; declarations inside member lists that declare a tag and no member (qualified, attributed, forward) added after T152',
  'C09': 'string spacing compared loosely when a `#` operand can hold already-expanded material (section 4, C09 **O**; the strict rule was a false alarm, section 8); function-like names without parentheses added after seeded change C09-m2; escapes in stringized literals, empty object-like macros before `(`, `__VA_OPT__`, comma pastes added after the hunter round',
- 'C10': 'as designed (null directives with junk, `#include_next` chains of 2-3 directories and from the includer directory added after T40-T46, directories named twice and unsuffixed decimal constants above INTMAX_MAX after T170/T172); the model predicts the marker sequence of conditional trees exactly (gcc and clang must agree with it)',
+ 'C10': 'as designed (null directives with junk, `#include_next` chains of 2-3 directories and from the includer directory added after T40-T46, directories named twice and unsuffixed decimal constants above INTMAX_MAX after T170/T172, nested search directories after T211; the marker pattern missed the markers of the #include_next chains themselves until then - they were checked only through the headers they include); the model predicts the marker sequence of conditional trees exactly (gcc and clang must agree with it)',
  'C11': 'no libFuzzer target for unicode.c: all 1,114,112 code points are enumerated instead; multi-character constants, pp-numbers with extended characters and floating constants (decimal/hex x suffixes) added after T143, T144 and seeded change C11-m4',
  'C12': 'as designed; objects are compared after `objcopy -g` between stages (they embed the working directory) and unstripped between two runs of one stage; link option sets and constant-expression corner inputs added after T135-T137',
  'C13': 'token ddmin not built (Hypothesis shrinks the edit list; seeds are 60-line windows); bracket-truncation mutator and generated C09/C10 seeds added after seeded change C13-m1; split-line and marker byte edits, arithmetic-corner seeds (INT64_MIN % -1, 64-bit case labels) added after T40/T41 and seeded changes C13-m3/m4',
